@@ -32,11 +32,12 @@ def cases(draw, name, max_len):
     case = draw(base_case(name, max_len=max_len, steps=draw(st.sampled_from(["full", "partial"]))))
     if name != "iter_sentinel":
         for s in case["srcs"]:
-            s["fl"] = "aclass"
+            # "aeager": __anext__ consumes when CALLED - calling it ahead of the await is a read-ahead
+            s["fl"] = draw(st.sampled_from(["aclass", "aclass", "aeager"]))
     if name == "chain_from_iterable":
         case["params"]["outer"]["fl"] = "aclass"
     for spec in case["fns"].values():
-        spec["fl"] = draw(st.sampled_from(["def", "async"]))
+        spec["fl"] = draw(st.sampled_from(["def", "async", "falsyobj"]))
     case["close"] = False
     return case
 
